@@ -600,6 +600,7 @@ type Contracts struct {
 	Lemmas []*Lemma
 	Consts map[string]*ConstDef
 	Files  []string
+	Guards []GuardEntry
 	Locks  []LockEntry // lock order table: "lock Type.field $Ghost", earlier entries are acquired first
 	Perms  []*PermTable
 }
@@ -619,6 +620,16 @@ type PermTable struct {
 	Line     int
 }
 
+// GuardEntry: "guards Type.mutexField field rely <expr over before/after>": state that other goroutines may
+// change whenever the mutex is not held - on every acquisition the guarded object is a new value related
+// to the last one seen only by the rely condition.
+type GuardEntry struct {
+	Mutex string // Type.field of the mutex
+	Field string // pointer field of the same struct whose pointee is guarded
+	Rely  Expr
+	Text  string
+}
+
 type LockEntry struct {
 	Field string // Type.field
 	Ghost string // ghost flag name without '$'
@@ -633,7 +644,7 @@ var clauseKeywords = map[string]bool{
 	"property": true, "requires": true, "ensures": true, "nopanic": true, "overflow": true,
 	"untrusted": true, "loop": true, "modifies": true, "assume": true, "trusted": true,
 	"fresh": true, "params": true, "results": true, "let": true, "assert": true, "var": true,
-	"dropped": true, "param": true, "end": true, "checks": true, "effect": true, "callpre": true, "noframe": true, "lock": true, "permtable": true, "wirenames": true, "require": true, "closed": true, "only": true, "havoc": true,
+	"dropped": true, "param": true, "end": true, "checks": true, "effect": true, "callpre": true, "noframe": true, "lock": true, "permtable": true, "wirenames": true, "guards": true, "require": true, "closed": true, "only": true, "havoc": true,
 }
 
 // OnlyCall is one `only` clause.
@@ -1011,6 +1022,21 @@ func (c *Contracts) parseContractFile(path, pkgPath string) error {
 				return fail(l.n, "closed outside permtable")
 			}
 			curPerm.Closed = true
+		case "guards":
+			// guards Type.mutexField field rely <expr>
+			k := strings.Index(rest, " rely ")
+			if k < 0 {
+				return fail(l.n, "guards Type.mutex field rely <expr>")
+			}
+			fs := strings.Fields(rest[:k])
+			if len(fs) != 2 {
+				return fail(l.n, "guards Type.mutex field rely <expr>")
+			}
+			e, err := parseSpecExpr(strings.TrimSpace(rest[k+6:]))
+			if err != nil {
+				return fail(l.n, "%v", err)
+			}
+			c.Guards = append(c.Guards, GuardEntry{Mutex: fs[0], Field: fs[1], Rely: e, Text: strings.TrimSpace(rest)})
 		case "lock":
 			// lock Type.field $Ghost
 			fs := strings.Fields(rest)
